@@ -5,15 +5,20 @@
 (* and EVERY scalar below 2^(8 LEN - 1) (reduced or not).                  *)
 (***************************************************************************)
 EXTENDS ScalarMulAlg, Params, TLC
-CONSTANT PAIRALL     \* TRUE: pair phase from every (p, s); FALSE: only from the scalars of FewScalars
+CONSTANT PAIRALL,    \* TRUE: pair phase from every (p, s); FALSE: only from the scalars of FewScalars
+         QUICK       \* TRUE: the every-change configuration (single phase over a scalar alphabet, small pair phase)
 VARIABLES p, s, q, t, ph
 Pts == CurvePoints
 Scalars == {ToBytes(n, LEN) : n \in 0..127}               \* invariant #1: top bit clear
 FewScalars == {ToBytes(n, LEN) : n \in {0, 1, 7, 8, 9, 24, 63, 64, 65, 120, 127, Val(L), Val(L) - 1, Val(L) + 1}}
 FewPts == {Identity, BasePt, T8Pt, PtAdd(BasePt, T8Pt), PtDouble(T8Pt), SMul(BN(3, 1), BasePt)}
 \* phase 0: one point, one scalar; phase 1: a second (point, scalar) from small sets
-Init == p \in Pts /\ s \in Scalars /\ q = p /\ t = s /\ ph = 0
-Next == ph = 0 /\ (PAIRALL \/ s \in FewScalars) /\ ph' = 1 /\ q' \in FewPts /\ t' \in FewScalars /\ UNCHANGED <<p, s>>
+QScalars == FewScalars \cup {ToBytes(n, LEN) : n \in {2, 3, 15, 16, 17, 31, 32, 33, 56, 72, 88, 96, 119, 126}}
+QPairS == {ToBytes(n, LEN) : n \in {0, 1, 8, 65, 120, 127}}
+QPairP == {Identity, T8Pt, PtAdd(BasePt, T8Pt)}
+Init == p \in Pts /\ s \in (IF QUICK THEN QScalars ELSE Scalars) /\ q = p /\ t = s /\ ph = 0
+Next == ph = 0 /\ (PAIRALL \/ s \in FewScalars) /\ ph' = 1
+        /\ q' \in (IF QUICK THEN QPairP ELSE FewPts) /\ t' \in (IF QUICK THEN QPairS ELSE FewScalars) /\ UNCHANGED <<p, s>>
 NB == 8 * LEN
 
 SingleOK ==
